@@ -52,6 +52,9 @@ func newSchedCfg(c *c12Case, seed int64) *schedCfg {
 	one := c12Code(c.D, c.P, 1)
 	cfg.parity = one.GenerateParity(cfg.data)
 	cfg.coder = c12Code(c.D, c.P, c.G)
+	if c.Odd {
+		cfg.data, cfg.parity = c12Displace(cfg.data), c12Displace(cfg.parity)
+	}
 	if c.Op == "encode" {
 		cfg.want = cfg.parity
 	} else {
@@ -242,22 +245,26 @@ func init() {
 		type sc struct {
 			op            string
 			d, p, len, gg int
+			odd           bool
 		}
 		// (workers x kernel calls): workers = ceil(len/16) capped by g; kernel calls per worker = p_out * d_in
 		quick := []sc{
-			{"encode", 2, 2, 32, 2},      // 2 workers x 4 kernel calls
-			{"encode", 2, 2, 48, 3},      // 3 x 4
-			{"encode", 2, 1, 64, 4},      // 4 x 2
-			{"encode", 4, 2, 30, 2},      // 2 x 8, last chunk shorter than 16
-			{"reconstruct", 2, 2, 32, 2}, // 2 x 4
-			{"reconstruct", 3, 2, 44, 2}, // 2 x 6, length not divisible
-			{"reconstruct", 2, 1, 50, 4}, // 4 x 2, short last chunk
+			{"encode", 2, 2, 32, 2, false},      // 2 workers x 4 kernel calls
+			{"encode", 2, 2, 48, 3, false},      // 3 x 4
+			{"encode", 2, 1, 64, 4, false},      // 4 x 2
+			{"encode", 4, 2, 30, 2, false},      // 2 x 8, last chunk shorter than 16
+			{"reconstruct", 2, 2, 32, 2, false}, // 2 x 4
+			{"reconstruct", 3, 2, 44, 2, false}, // 2 x 6, length not divisible
+			{"reconstruct", 2, 1, 50, 4, false}, // 4 x 2, short last chunk
+			// input shards displaced to odd addresses inside larger buffers
+			{"encode", 2, 2, 32, 2, true},
+			{"reconstruct", 2, 2, 32, 2, true},
 		}
 		thorough := []sc{
-			{"encode", 5, 1, 48, 3},      // 3 x 5   (18!/(6!)^3 = 17.2 M interleavings)
-			{"encode", 3, 1, 64, 4},      // 4 x 3   (16!/(4!)^4 = 63.1 M)
+			{"encode", 5, 1, 48, 3, false},      // 3 x 5   (18!/(6!)^3 = 17.2 M interleavings)
+			{"encode", 3, 1, 64, 4, false},      // 4 x 3   (16!/(4!)^4 = 63.1 M)
 			
-			{"encode", 2, 2, 34, 7},      // g > number of 16-byte units
+			{"encode", 2, 2, 34, 7, false},      // g > number of 16-byte units
 		}
 		list := quick
 		if g.Thorough() {
@@ -277,7 +284,7 @@ func init() {
 					}
 					split = 12
 				}
-				c := &c12Case{Kind: "sched", Op: s.op, D: s.d, P: s.p, Len: s.len, G: s.gg, Gran: gran, Bound: bound, Split: split}
+				c := &c12Case{Kind: "sched", Op: s.op, D: s.d, P: s.p, Len: s.len, G: s.gg, Gran: gran, Bound: bound, Split: split, Odd: s.odd}
 				cfg := newSchedCfg(c, g.Seed)
 				cfg.units(nil, split, bound, func(v []int) {
 					cc := *c
